@@ -62,7 +62,15 @@ def item_src(kind, name, annot, members=None):
     raise KeyError(kind)
 
 
+PLACES = {"fn_body": "fn holder() {\n%s\n}", "nested_block": "fn holder() {\n{\n%s\n}\n}", "const_block": "const _: () = {\n%s\n};",
+          "closure": "fn holder() {\nlet c = || {\n%s\n};\n}", "impl_method_if": "struct Own;\nimpl Own {\nfn m(&self) {\nif true {\n%s\n}\n}\n}",
+          "match_arm": "fn holder(x: u8) {\nmatch x {\n0 => {\n%s\n}\n_ => {}\n}\n}", "mod_in_fn": "fn holder() {\nmod inner {\n%s\n}\n}"}
+
+
 def wrap_mods(text, depth):
+    """depth 0..2: nested `mod`s; a name from PLACES: the item sits inside a function body / an expression"""
+    if isinstance(depth, str):
+        return PLACES[depth] % text
     for d in range(depth):
         text = "pub mod m%d {\n%s\n}" % (d, text)
     return text
@@ -477,6 +485,7 @@ def run(rep, tier, only=None):
     sd = seed()
     mk = list(MARKERS.keys())
     ann_cases = [(k, d, f) for k in KINDS for d in (0, 1, 2) for f in ("path", "list", "qualified", "qualified_first", "cfg_attr")]
+    ann_cases += [(k, pl, "path") for k in KINDS for pl in PLACES]
     word_cases = [(c, w) for c in ("struct", "unit_enum", "alg_enum", "struct_variant") for w in ("word", "attr", "attr9", "word_ts")]
     if tier == "quick":
         pairs = [(a, b) for a in mk for b in mk]
@@ -491,7 +500,7 @@ def run(rep, tier, only=None):
             for failing in ([None, 1] if tier == "quick" else [None, 0, 1, 2, 3]):
                 for depth in ((0, 2) if tier == "quick" else (0, 1, 2)):
                     file_cases.append((ks, ann, failing, depth))
-    rep.bounds = {"annotation": "attribute identifier symbolic (9 chars over [a-z_]) in 5 attribute forms x 6 item kinds x module depth 0..2",
+    rep.bounds = {"annotation": "attribute identifier symbolic (9 chars over [a-z_]) in 5 attribute forms x 6 item kinds x module depth 0..2, plus every item kind inside a function body, nested block, const block, closure, impl method `if`, match arm, module inside a function",
                   "markers": "marker word (4 chars) / attribute name (5 and 9 chars) symbolic on the middle member of struct, unit enum, data enum, struct variant",
                   "members": "3 members x %d marker arrangements (%s)" % (len(mk), "all triples" if tier == "thorough" else "all pairs + seed-rotated third"),
                   "files": "4 items of mixed kinds, every annotated subset, an optional failing item, module depth 0..2"}
